@@ -131,17 +131,26 @@ example : opEvents handlers ((pipelines.find? (fun p => p.1 = "create")).get!.2)
     by two pipelines of the same call: e.g. Save's UPDATE pipeline and its upsert fallback never both run
     BeforeSave/AfterSave.  (Regenerated from the Session literals / Execute calls / control flow of /repo.) -/
 theorem C13_finishers_no_hook_twice :
-    ∀ f ∈ finishers, ∀ run ∈ runsOf finishers 4 false f.fn, (runHooks pipelines handlers run).Nodup := by
+    ∀ f ∈ finishers, ∀ run ∈ runsOf finishers skipHookFinishers 4 false f.fn, (runHooks pipelines handlers run).Nodup := by
   decide
 
 /-- the runs of Save are exactly: upsert-create of a slice; create (zero key); update; update followed by the
     hook-less upsert -- and FirstOrCreate: query; query+create; query+update -/
 theorem C13_save_runs :
     let same (a b : List (List (String × Bool))) : Bool := a.all (fun x => b.contains x) && b.all (fun x => a.contains x)
-    same (runsOf finishers 4 false "DB.Save")
+    same (runsOf finishers skipHookFinishers 4 false "DB.Save")
       [[("create", true)], [("update", true)], [("update", true), ("create", false)]] = true ∧
-    same (runsOf finishers 4 false "DB.FirstOrCreate")
+    same (runsOf finishers skipHookFinishers 4 false "DB.FirstOrCreate")
       [[("query", true)], [("query", true), ("create", true)], [("query", true), ("update", true)]] = true := by
+  decide
+
+/-- the column-update methods run their pipeline with hooks off; Update/Updates with hooks on -/
+theorem C13_updateColumn_runs :
+    runsOf finishers skipHookFinishers 4 false "DB.UpdateColumn" = [[("update", false)]] ∧
+    runsOf finishers skipHookFinishers 4 false "DB.UpdateColumns" = [[("update", false)]] ∧
+    runsOf finishers skipHookFinishers 4 false "DB.Updates" = [[("update", true)]] ∧
+    runsOf finishers skipHookFinishers 4 false "DB.Update" = [[("update", true)]] ∧
+    runsOf finishers skipHookFinishers 4 false "DB.Delete" = [[("delete", true)]] := by
   decide
 
 /-- pipelines that may run more than once in one call (inside a loop, not in a `return`) with hooks on: only
